@@ -244,6 +244,38 @@ static void b_case(uint64_t idx, void *ctx)
     mc_outcome((uint64_t) T.flags * 131 + (uint64_t) bad_before);
 }
 
+
+/* ------------------------------------------------------------------ part C: bundles with an unknown letter (pinned convention:
+ * the unknown letter is one bad option, the known letters around it still act) */
+static const struct { const char *tok; unsigned long flags; const char *file; int num; } BUN[] = {
+    { "-zab", 0x03, NULL, 0 }, { "-azb", 0x03, NULL, 0 }, { "-abz", 0x03, NULL, 0 }, { "-zfX", 0, "X", 0 }, { "-zn5", 0, NULL, 5 }, { "-za", 0x01, NULL, 0 }, { "-zbqa", 0x03, NULL, 0 }, { "-z", 0, NULL, 0 },
+};
+#define NBUN ((int) (sizeof BUN / sizeof BUN[0]))
+static void c_desc(uint64_t idx, void *ctx, char *b, size_t n) { (void) ctx; snprintf(b, n, "prog [%s]%s  {pre-parse=%d remove-args=%d}: unknown letter z/q inside a bundle", BUN[idx / 8].tok, (idx / 4) % 2 ? " [word]" : "", (int) (idx & 1), (int) ((idx >> 1) & 1)); }
+static void c_case(uint64_t idx, void *ctx)
+{
+    int bi = (int) (idx / 8), word = (int) ((idx / 4) % 2), set = (int) (idx & 3); (void) ctx;
+    const char *shape = "bundle with an unknown letter";
+    mc_set_shape(shape);
+    g_exec_pp = 0; table(); reset_targets();
+    char *orig[4]; int ac = 0; orig[ac++] = mc_heapstr("prog"); orig[ac++] = mc_heapstr(BUN[bi].tok); if (word) orig[ac++] = mc_heapstr("word");
+    char **argv = malloc(sizeof(char *) * (size_t) (ac + 1)); memcpy(argv, orig, sizeof(char *) * (size_t) ac); argv[ac] = NULL;
+    SPIFOPT_OPTLIST_SET(OPTS); SPIFOPT_NUMOPTS_SET(NOPT); SPIFOPT_ALLOWBAD_SET(9); SPIFOPT_BADOPTS_SET(0); SPIFOPT_HELPHANDLER_SET(help_stub);
+    spifopt_settings.flags = 0;
+    if (set & 2) SPIFOPT_FLAGS_SET(SPIFOPT_SETTING_REMOVE_ARGS);
+    if (set & 1) { SPIFOPT_FLAGS_SET(SPIFOPT_SETTING_PREPARSE); spifopt_parse(ac, argv); }
+    spifopt_parse(ac, argv);
+    int unknown = 0; for (const char *c = BUN[bi].tok + 1; *c && *c != 'f' && *c != 'n'; c++) if (*c == 'z' || *c == 'q') unknown++;
+    if (T.flags != (0xf0 | BUN[bi].flags)) FAIL("spifopt_parse", "model:boolean-bits", shape, "flags 0x%lx after [%s], expected 0x%lx: the known letters of the bundle must still act", T.flags, BUN[bi].tok, 0xf0 | BUN[bi].flags);
+    if (!streq(T.file, BUN[bi].file)) FAIL("spifopt_parse", "model:string", shape, "file is %s after [%s]", T.file ? T.file : "unset", BUN[bi].tok);
+    if (T.num != BUN[bi].num) FAIL("spifopt_parse", "model:integer", shape, "num=%d after [%s]", T.num, BUN[bi].tok);
+    if ((int) SPIFOPT_BADOPTS_GET() != unknown * ((set & 1) ? 2 : 1)) FAIL("spifopt_parse", "model:bad-count", shape, "%d bad options counted for [%s], expected %d per pass", (int) SPIFOPT_BADOPTS_GET(), BUN[bi].tok, unknown);
+    free_targets();
+    for (int i = 0; i < ac; i++) free(orig[i]);
+    free(argv);
+    mc_nontrivial();
+}
+
 int main(int argc, char **argv)
 {
     mc_init("C08", argc, argv);
@@ -254,5 +286,6 @@ int main(int argc, char **argv)
             NITEMS, K, NTOK, N);
     for (g_k = 0; g_k <= K; g_k++) if (!mc_e2_level("wellformed", g_k, lines_of(g_k), a_case, a_desc, NULL)) break;
     for (g_k = 0; g_k <= N; g_k++) if (!mc_e2_level("hostile", g_k, mc_words_of_len(NTOK, g_k) * 4, b_case, b_desc, NULL)) break;
+    mc_e2_level("bundles", 1, (uint64_t) NBUN * 8, c_case, c_desc, NULL);
     return mc_finish();
 }
